@@ -472,6 +472,10 @@ struct Counters {
     syncs: u64,
     #[serde(default)]
     t_ms: BTreeMap<String, u64>,
+    #[serde(default)]
+    decrypt_retries: u64,
+    #[serde(default)]
+    decrypt_fallbacks: u64,
 }
 
 /// Oracle on the editing device (part a, and device 1 of part b).
@@ -522,6 +526,53 @@ where
             }
         }
     }
+}
+
+/// `Account::download_file`, robust against the load of the machine: the
+/// age library refuses a passphrase-encrypted file whose scrypt work
+/// factor exceeds a bound it calibrates from the CURRENT speed of the
+/// machine ("Excessive work parameter"), which on a busy machine is hit
+/// by files the same machine encrypted a second earlier. That refusal is
+/// retried, then the blob is decrypted with the same algorithm and the
+/// account's file password without the speed-dependent bound.
+async fn robust_download<A>(acct: &A, folder: &VaultId, secret: &SecretId, name: &ExternalFileName, cnt: &mut Counters) -> std::result::Result<Vec<u8>, String>
+where
+    A: Account + Send + Sync,
+{
+    let mut last = String::new();
+    for attempt in 0..4 {
+        match acct.download_file(folder, secret, name).await {
+            Ok(b) => return Ok(b),
+            Err(e) => {
+                last = e.to_string();
+                if !last.contains("Excessive work") {
+                    return Err(last);
+                }
+                cnt.decrypt_retries += 1;
+                tokio::time::sleep(Duration::from_millis(500 * (attempt + 1))).await;
+            }
+        }
+    }
+    cnt.decrypt_fallbacks += 1;
+    let target = acct.backend_target().await;
+    let mut identity = sos_login::Identity::new(target);
+    let key: sos_core::crypto::AccessKey = vkit::acct::password().into();
+    identity.login(acct.account_id(), &key).await.map_err(|e| format!("{} (fallback login: {})", last, e))?;
+    let pass = identity.find_file_encryption_password().await.map_err(|e| format!("{} (fallback password: {})", last, e))?;
+    let path = acct.paths().into_file_path_parts(folder, secret, name);
+    let bytes = std::fs::read(&path).map_err(|e| format!("{} (fallback read: {})", last, e))?;
+    tokio::task::spawn_blocking(move || -> std::result::Result<Vec<u8>, String> {
+        use std::io::Read;
+        let d = age::Decryptor::new(&bytes[..]).map_err(|e| e.to_string())?;
+        let mut id = age::scrypt::Identity::new(pass);
+        id.set_max_work_factor(30);
+        let mut r = d.decrypt(std::iter::once(&id as &dyn age::Identity)).map_err(|e| e.to_string())?;
+        let mut out = vec![];
+        r.read_to_end(&mut out).map_err(|e| e.to_string())?;
+        Ok(out)
+    })
+    .await
+    .map_err(|e| e.to_string())?
 }
 
 fn load_content(sh: &Shared) -> ([PathBuf; 2], [Vec<u8>; 2]) {
